@@ -33,19 +33,19 @@ Bm22Step(bm, acc, cfgs, n, e) ==
        LET ctl == d[1] % 16   sess == d[1] \div 16   size == Rd3(d, 2)   segn == Rd3(d, 5)   pgn == Rd3(d, 10) IN
        CASE ctl = FC_RTS ->
               ok(BPut(bm, [key |-> CKey22(sess, sa, da), size |-> size, total |-> segn, limit |-> d[8], pgn |-> pgn,
-                           hi |-> 0, nxt |-> 1, lastDt |-> -1, bam |-> FALSE, buf |-> <<>>, start |-> e.t, all |-> FALSE]))
+                           hi |-> 0, nxt |-> 1, lastDt |-> -1, bam |-> FALSE, buf |-> <<>>, start |-> e.t, all |-> FALSE, fresh |-> TRUE]))
          [] ctl = FC_BAM ->
               ok(BPut(bm, [key |-> CKey22(sess, sa, da), size |-> size, total |-> segn, limit |-> 255, pgn |-> pgn,
-                           hi |-> segn, nxt |-> 1, lastDt |-> -1, bam |-> TRUE, buf |-> <<>>, start |-> e.t, all |-> FALSE]))
+                           hi |-> segn, nxt |-> 1, lastDt |-> -1, bam |-> TRUE, buf |-> <<>>, start |-> e.t, all |-> FALSE, fresh |-> FALSE]))
          [] ctl = FC_CTS ->
               IF ~BHas(bm, CKey22(sess, da, sa)) THEN ok(bm)
               ELSE LET c == BGet(bm, CKey22(sess, da, sa))   num == d[8]   next == segn IN
                    IF stack /\ num > c.limit THEN ko("CTS grants more segments than the RTS allows")
                    ELSE IF stack /\ num > cfgs[n].maxc THEN ko("CTS grants more segments than the responder's configured maximum")
                    ELSE IF stack /\ num > 0 /\ num > c.total - next + 1 THEN ko("CTS grants more segments than remain")
-                   ELSE IF num = 0 THEN ok(BPut(bm, [c EXCEPT !.hi = c.nxt - 1]))
+                   ELSE IF num = 0 THEN ok(BPut(bm, [c EXCEPT !.hi = c.nxt - 1, !.fresh = TRUE]))
                    ELSE IF next < 1 \/ next > c.nxt THEN ok(BPut(bm, [c EXCEPT !.hi = c.nxt - 1]))   \* nothing sensible cleared
-                   ELSE ok(BPut(bm, [c EXCEPT !.hi = next + num - 1, !.nxt = next,
+                   ELSE ok(BPut(bm, [c EXCEPT !.hi = next + num - 1, !.nxt = next, !.fresh = TRUE,
                                                !.buf = SubSeq(@, 1, Min2(Len(@), 60 * (next - 1)))]))
          [] ctl = FC_EOMS ->
               IF ~BHas(bm, CKey22(sess, sa, da)) THEN (IF stack THEN ko("end-of-message status without an open connection") ELSE ok(bm))
@@ -73,14 +73,15 @@ Bm22Step(bm, acc, cfgs, n, e) ==
        THEN IF stack THEN ko("data segment without an open connection") ELSE ok(bm)
        ELSE LET c == BGet(bm, CKey22(sess, sa, da))
                 gap == e.t - (IF c.lastDt < 0 THEN c.start ELSE c.lastDt)
-                c2 == [c EXCEPT !.nxt = seqn + 1, !.lastDt = e.t, !.buf = @ \o SubSeq(d, 5, Len(d))]
+                c2 == [c EXCEPT !.nxt = seqn + 1, !.lastDt = e.t, !.buf = @ \o SubSeq(d, 5, Len(d)), !.fresh = FALSE]
             IN
             IF stack /\ d[1] % 16 # 0 THEN ko("data transfer format indicator is not 0")
             ELSE IF stack /\ seqn # c.nxt THEN ko("data segment out of sequence")
             ELSE IF stack /\ seqn > c.hi THEN ko("data segment not cleared by a CTS")
             ELSE IF stack /\ c.bam /\ gap < cfgs[n].bamInt THEN ko("BAM data segments closer than the minimum interval")
             ELSE IF stack /\ ~c.bam /\ cfgs[n].cmdtInt >= 0 /\ c.lastDt >= 0 /\ gap < cfgs[n].cmdtInt
-                 THEN ko("connection-mode data segments closer than the configured minimum interval")
+                 THEN (IF c.fresh THEN ko("connection-mode data segments closer than the configured minimum interval (first segment after a CTS)")
+                       ELSE ko("connection-mode data segments closer than the configured minimum interval (within a window)"))
             ELSE IF stack /\ c.bam /\ cfgs[n].paceMax >= 0 /\ gap > cfgs[n].paceMax THEN ko("BAM data segments further apart than allowed")
             ELSE IF stack /\ seqn < c.total /\ Len(d) # 64 THEN ko("intermediate data segment is not 64 bytes long")
             ELSE ok(BPut(bm, c2))
